@@ -149,17 +149,19 @@ class Runner(object):
         if valid_cfg and len(R) >= len(P) and sparse(script) and timeout >= 3 and not any(rtox or []):
             exact = o['ini'] == exp_i[:len(P)] and o['tgt'][:len(P)] == exp_t
             if not exact:
-                # which frame was hit first
-                k = next((i for i, f in enumerate(script) if f != ('D', 'D')), None)
-                what = 'none'
-                if k is not None:
-                    fr = [(d, h, f, btx) for d, h, f, btx, _, r in o['frames'] if r == o['base'] + k]
-                    if fr:
-                        hit = fr[0] if script[k][0] != 'D' else (fr[1] if len(fr) > 1 else fr[0])
-                        what = '%s-%s-%s' % (hit[0], pdu_kind(hit[1], hit[3]), hit[2])
-                ck.violation('not-recovered:%s:did=%s' % (what, cfg['did'] is not None),
+                # classify the script: was an ACK response corrupted, was any frame lost, is a DID in use
+                ackc = lost = False
+                for k, f in enumerate(script):
+                    fr = [(d, h, ft, btx) for d, h, ft, btx, _, r in o['frames'] if r == o['base'] + k]
+                    if f[0] == 'L' or f[0] == 'C' or (f == ('D', 'L')):
+                        lost = lost or bool(fr)
+                    if f == ('D', 'C') and len(fr) > 1 and pdu_kind(fr[1][1], fr[1][3]) == 'ACK':
+                        ackc = True
+                ck.violation('not-recovered:did=%s:corrupted-ack=%s:timeout=%s' % (cfg['did'] is not None, ackc, lost),
                              'a single lost/corrupted frame per protocol step was not recovered transparently '
-                             '(first fault: %s)' % what, dict(case, ini=[x[:20] for x in o['ini']], tgt=[x[:20] for x in o['tgt']]))
+                             '(DID in use: %s, an ACK response was corrupted: %s, a time-out occurred: %s)' % (
+                                 cfg['did'] is not None, ackc, lost),
+                             dict(case, ini=[x[:20] for x in o['ini']], tgt=[x[:20] for x in o['tgt']]))
 
     def flush(self):
         if not self.lines:
